@@ -139,6 +139,19 @@ def r1(ctx):
     ctx.ob(run.qual, "chromosomes-in-header-order", ok, run.loc(cl), why)
     exits = [e for e in util.lexical_loop_exits(cl) if not any(e in list(ast.walk(l)) for l in loops)]
     ctx.ob(run.qual, "chromosome-loop-no-early-exit", not exits, run.loc(exits[0]) if exits else run.loc(cl), "the chromosome loop runs over every reference of the BAM" if not exits else "the chromosome loop can be left before all chromosomes are processed")
+    # which contigs are visited at all: decided by what fetch() returns, because that is what the write loop iterates
+    cw = ctx.prog.functions.get(MOD + ".contigs_with_alignments")
+    if cw is not None:
+        txt = u(cw.node)
+        fetches = [c for c in ctx.prog.calls_in(cw.node, include_nested=True) if isinstance(c.func, ast.Attribute) and c.func.attr == "fetch"]
+        stats = [x for x in ast.walk(cw.node) if isinstance(x, ast.Attribute) and x.attr in ("mapped", "unmapped", "get_index_statistics", "mapped_reads")]
+        if stats:
+            okc, why = False, "contigs_with_alignments consults the index counters (%s): placed-but-unmapped records are returned by fetch() yet not counted as mapped, so a contig that holds only such records is skipped and its alignments are never written" % sorted({x.attr for x in stats})
+        elif fetches:
+            okc, why = True, "a contig is visited exactly if fetch(contig) returns at least one alignment"
+        else:
+            okc, why = None, "cannot read how contigs_with_alignments decides"
+        ctx.ob(cw.qual, "visited-contigs-are-those-with-fetched-alignments", okc, cw.loc(), why)
     # regions default covers every reference
     nr = ctx.func(MOD + ".normalize_user_regions")
     ok = None  # undecided unless a loop over the BAM references is found: another construction is not a violation by itself
@@ -321,6 +334,12 @@ def r4(ctx):
     ctx.ob(fi.qual, "no-scores-no-tag", ok, fi.loc(st.stmt), "a read without any phased variant (empty score collection) is not assigned" if ok else "the assignment is not guarded by the score collection (%s) being non-empty" % sorted(coll_names))
     ok = ("0 == quality", False) in ga
     ctx.ob(fi.qual, "tie-no-tag", ok, fi.loc(st.stmt), "a read whose best and second-best haplotype tie (quality == 0) is not assigned" if ok else "the assignment is not guarded by quality != 0")
+    # the read-cloud table feeds the linked-read fallback of the tag writer: a tied cloud must not be registered there either
+    bxa = [c for c in ctx.prog.calls_in(fi.node) if isinstance(c.func, ast.Attribute) and c.func.attr in ("append", "add") and util.root_name(c.func.value) == "BX_tag_to_haplotype"]
+    for c in bxa:
+        gb = guard_atoms(cfg, cfg.node_containing(c))
+        okb = ("0 == quality", False) in gb
+        ctx.ob(fi.qual, "tie-no-read-cloud", okb, fi.loc(c), "a tied read cloud is not entered into the barcode table" if okb else "the barcode table receives the cloud before the tie test: every alignment with that barcode is tagged through the linked-read fallback although best and second-best haplotype tie")
     q = util.single_def(fi.node, "quality")
     lf = linear(q) if q is not None else None
     ok = lf == {"first_score": 1, "second_score": -1}
